@@ -185,7 +185,7 @@ def run(tier, work):
         samples=samples, evaluations=len(exs), distinct_nontrivial=nontrivial,
         rule="populations/gaps/arrival patterns printed by TLC from CmdTurnGen (BFS + -simulate); non-trivial = at least two "
              "(user, cycle) pairs receive commands; distinct by JSON text",
-        exhaustive=False, events_validated=nevents, driver_failures=ncrash),
+        exhaustive=False, enumerated_by_tlc=nexh, events_validated=nevents, driver_failures=ncrash),
         time.time() - t0, len(verdict.new), ["virtual time; scripted reactor and sockets"])
     return rc
 
